@@ -426,7 +426,9 @@ func TestC07_minimisers_meet_stop_condition(t *testing.T) {
 			switch routine {
 			case "bfgs":
 				args := []interface{}{bfgs.Epsilon{Value: eps}, bfgs.MaxIterations{Value: maxIt},
-					bfgs.Hook{Value: func(x, g ConstVector, y ConstScalar) bool { return hl.check(o, floats(x), floats(g), y.GetFloat64(), true) }}}
+					bfgs.Hook{Value: func(x, g ConstVector, y ConstScalar) bool {
+						return hl.check(o, floats(x), floats(g), y.GetFloat64(), true)
+					}}}
 				if hs != nil {
 					args = append(args, bfgs.Constraints{Value: cons})
 				}
@@ -524,7 +526,9 @@ func TestC07_minimisers_meet_stop_condition(t *testing.T) {
 			case "adam":
 				step := adamStep
 				args := []interface{}{adam.Epsilon{Value: eps}, adam.MaxIterations{Value: maxIt}, adam.StepSize{Value: step},
-					adam.Hook{Value: func(x, g ConstVector, y ConstScalar) bool { return hl.check(o, floats(x), floats(g), y.GetFloat64(), true) }}}
+					adam.Hook{Value: func(x, g ConstVector, y ConstScalar) bool {
+						return hl.check(o, floats(x), floats(g), y.GetFloat64(), true)
+					}}}
 				if hs != nil {
 					args = append(args, adam.Constraints{Value: cons})
 				}
